@@ -2,6 +2,8 @@ import HumphreyModel.Driver.Util
 import HumphreyModel.Model.Date
 import HumphreyModel.Spec.Date
 import HumphreyModel.Model.Sha1
+import HumphreyModel.Model.WsMsg
+import HumphreyModel.Driver.C18Gen
 
 /-!
 Driver half of C18 for HTTP dates and SHA-1.
@@ -12,6 +14,12 @@ string (for timestamps of the property's range, 1970-01-01 … 9999-12-31), inde
 
 `sha1 <hex message> <impl>`: `impl` is the 40 hex digits of the digest. `sha1_eq_rfc3174`
 (Props/C18Sha1.lean) proves the model equal to RFC 3174, so any other answer violates C18.
+
+LENGTH sweeps: `sha1g <desc> <impl>`: the same on a message given by a compact description (`Driver/C18Gen.lean`).
+`wsacc <desc> <impl>`: the public path to SHA-1 + Base64: `websocket_handler` called on a request whose
+`Sec-WebSocket-Key` is the described text; `impl` = hex of everything written to the socket (or `PANIC`), which must
+be the 101 response carrying `Sec-WebSocket-Accept: base64(sha1(key ++ GUID))` (`WsMsg.handshakeResponse`) followed by
+the Close frame of the stream the (empty) handler drops (`WsMsg.dropStream`).
 -/
 namespace Humphrey.Driver.C18b
 open Humphrey Humphrey.Driver
@@ -68,8 +76,26 @@ def sha1 (msg : String) (impl : String) : Verdict :=
     let model := hex (Sha1.sha1 m)
     { model := model, spec := some (impl == model) }
 
+def sha1g (desc : String) (impl : String) : Verdict :=
+  match Gen.bytesOf desc with
+  | none => { model := "BADARGS" }
+  | some m =>
+    let model := hex (Sha1.sha1 m)
+    { model := model, spec := some (impl == model) }
+
+def wsacc (desc : String) (impl : String) : Verdict :=
+  match Gen.bytesOf desc with
+  | none => { model := "BADARGS" }
+  | some key =>
+    -- the handler returns at once, so the dropped stream's Close frame follows the response
+    let model := hex (Http.serializeResponse (WsMsg.handshakeResponse Sha1.sha1 key) ++
+      WsFrame.encodeFrame (WsFrame.Frame.new .close []))
+    { model := model, spec := some (impl == model) }
+
 def dispatch (fn : String) (args : List String) (impl : String) : Option Verdict :=
   match fn, args with
+  | "sha1g", [d] => some (sha1g d impl)
+  | "wsacc", [d] => some (wsacc d impl)
   | "date", [ts] => some (date ts impl)
   | "sha1", [m] => some (sha1 m impl)
   | _, _ => none
